@@ -176,6 +176,24 @@ SLAB_KEY_STABLE = {'new', 'with_capacity', 'insert', 'get', 'get_mut', 'remove',
                    'reserve_exact', 'shrink_to_fit', 'iter', 'iter_mut', 'vacant_entry', 'key'}
 
 
+def check_slab_keys(rep, rid, core, elem, label, floor, extra=()):
+    """a slab whose keys are held elsewhere as ids (task ids in wakers and queues, effect ids in the shell) is only used through
+    operations that leave every remaining entry under its key"""
+    moved, n = [], 0
+    for f in core.built:
+        if f.j.get('exp') or '::testing' in f.npath:
+            continue
+        for bb, t in f.calls():
+            c = norm(t.get('callee') or '')
+            if c.startswith('slab::Slab::') and elem in ' '.join(t.get('targs') or []):
+                n += 1
+                if last_seg(c) not in SLAB_KEY_STABLE and last_seg(c) not in extra:
+                    moved.append('%s at %s' % (last_seg(c), f.where(bb)))
+    rep.expect(rid, n >= floor and not moved, '%s|keys-are-stable' % label, '%d slab operations, none of which moves an entry to another key' % n,
+               'the %s slab is used through %s: live entries can end up under another key than the id that wakers, queues or the shell hold for them'
+               % (label, moved or 'too few operations (%d)' % n))
+
+
 def check_resume_atomic(rep, rid, res):
     """the lookup of the entry, its resolution and its removal all happen inside ONE region of the registry lock"""
     from rules.props import c03
